@@ -48,6 +48,15 @@ def mk_case(cid, elems, keys, rng, container=None, legal=True, keytext=None):
                               if rng.random() < 0.4}}}
 
 
+def sub_record(rid, a, pre, out, exc="none"):
+    """the record of a sort whose input is a sub-list / re-ordering of the case's list: `pre` = the elements (by their
+    position in the case's list) in the order the sort received them, `out` = the order it left them in"""
+    elems = [dict(a["elems"][p - 1], pos=j + 1) for j, p in enumerate(pre) if 1 <= p <= len(a["elems"])]
+    where = {p: j + 1 for j, p in enumerate(pre)}
+    return {"id": rid, "elems": elems, "keys": a["keys"], "legal": a["legal"],
+            "out": [where.get(p, 0) for p in out] if len(elems) == len(pre) else [], "exc": exc}
+
+
 def check(ctx, cases):
     obs = ctx.impl_map("c17", cases)
     recs, by_id = [], {}
@@ -57,8 +66,19 @@ def check(ctx, cases):
             continue
         by_id[c["id"]] = c
         a = c["abs"]
-        recs.append({"id": c["id"], "elems": a["elems"], "keys": a["keys"], "legal": a["legal"],
-                     "out": o.get("out") or [], "exc": o.get("exc", "none")})
+        route = c["args"].get("route", "method")
+        if o.get("exc", "none") == "none" and route == "unpack":
+            recs.append(sub_record(c["id"], a, o.get("pre") or [], o.get("out") or []))
+        elif o.get("exc", "none") == "none" and route == "grouped":
+            gs = o.get("groups") or [{"pre": list(range(1, len(a["elems"]) + 1)), "out": []}]
+            for k, g in enumerate(gs):
+                rid = "%s~%d" % (c["id"], k)
+                by_id[rid] = c
+                obs[rid] = o
+                recs.append(sub_record(rid, a, g["pre"], g["out"]))
+        else:
+            recs.append({"id": c["id"], "elems": a["elems"], "keys": a["keys"], "legal": a["legal"],
+                         "out": o.get("out") or [], "exc": o.get("exc", "none")})
         if len(a["elems"]) >= 2:
             ctx.nontrivial.add((c["args"]["container"], c["args"]["key"].strip().lower(),
                                 tuple(core.json.dumps(e, sort_keys=True) for e in a["elems"])))
@@ -142,12 +162,23 @@ def run(ctx):
             elems.append({"twp": rand_comp(ctx.rng, "ns", hi), "rge": rand_comp(ctx.rng, "ew", hi),
                           "sec": dict(rand_comp(ctx.rng, "-", min(hi, 36)), d="-"), "uid": uids[j]})
         keys = [ctx.rng.choice(legal_keys) for _ in range(ctx.rng.randint(1, 3))]
-        rnd.append(mk_case("r%d" % n, elems, keys, ctx.rng))
+        case = mk_case("r%d" % n, elems, keys, ctx.rng)
+        # the other ways to the same sort: the keys as a list, sorting inside groups and after unpacking them
+        r = ctx.rng.random()
+        if r < 0.15:
+            case["args"].update(route="keylist", keytuple=ctx.rng.random() < 0.5)
+        elif r < 0.3:
+            case["args"].update(route="unpack", group_attr=ctx.rng.choice(["twprge", "sec", "twp"]))
+        elif r < 0.45:
+            case["args"].update(route="grouped", group_attr=ctx.rng.choice(["twprge", "sec", "twp"]),
+                                grouped_how=ctx.rng.choice(["group_by", "sort_grouped"]))
+        rnd.append(case)
     check(ctx, rnd)
     ctx.rule = ("(list, key string) cases = terminal states of spec/SortSpec.tla (lists up to %d over valid/error/undefined "
                 "components, 1 key incl. .rev) + 15 illegal keys x 3 containers x lists of 0, 1 and 2 elements + seeded random lists of 2..8 elements "
                 "(numbers up to 160, ~25%% invalid components, shuffled creation order) with 1..3 keys; built as real "
-                "Tract/TRS objects in TractList/TRSList/PLSSDesc; non-trivial = distinct (container, key, list) with >= 2 "
+                "Tract/TRS objects in TractList/TRSList/PLSSDesc, 45%% of them through the other routes to the same sort (the keys as a "
+                "list / tuple; group_by(sort_key=) and sort_grouped(): one record per group; unpack_group(sort_key=)); non-trivial = distinct (container, key, list) with >= 2 "
                 "elements" % cfg_e["MaxLen"])
     ctx.assumptions += ["township/range number 0 is not generated (north 0 and south 0 tie in the code; not a real township)",
                         "keys such as 't.foo' (partially interpreted with a warning) are not claimed (R3)"]
